@@ -8,7 +8,7 @@ def main():
     bad = 0
     mods = sorted(f for f in os.listdir(work) if f.endswith(".tla"))
     for f in mods:
-        p = subprocess.run(["java", "-cp", engine.TLA_JAR, "tla2sany.SANY", f], cwd=work,
+        p = subprocess.run(["java", "-Djava.io.tmpdir=" + work, "-cp", engine.TLA_JAR, "tla2sany.SANY", f], cwd=work,
                            stdout=subprocess.PIPE, stderr=subprocess.STDOUT, text=True)
         if p.returncode != 0 or "Semantic errors" in p.stdout or "Fatal errors" in p.stdout or "***Parse Error***" in p.stdout:
             print("SANY failed on", f)
